@@ -114,9 +114,14 @@ def run_impl(ops, oracle_rng=None):
 
     outs = []
     bad = None
+    dup = False
     changed = raised = 0
     for i, op in enumerate(ops):
         k = op[0]
+        act0 = set(r.get_active_rules())
+        all0 = set(r.get_all_rules())
+        if len(all0) != len(r.get_all_rules()):
+            dup = True            # two rules under one name: names no longer identify rules (outside the property's quantifier)
         try:
             if k == "push":
                 r.push(op[1], fn(op[2]), {"alt": list(op[3])})
@@ -166,6 +171,27 @@ def run_impl(ops, oracle_rng=None):
             o = _exc_tag(e)
             raised += 1
         outs.append(o)
+        # oracle: the reported set follows the set semantics of the call (decided on the implementation's own reports)
+        if bad is None and not dup and not o.startswith("e:") and len(set(r.get_all_rules())) == len(r.get_all_rules()):
+            act1 = set(r.get_active_rules())
+            want = None
+            if k == "push":
+                want = act0 | {op[1]}
+            elif k == "at":
+                want = act0                       # replacing a rule's function is not an enable
+            elif k in ("before", "after"):
+                want = act0 | {op[2]}
+            elif k == "enable":
+                want = act0 | (set(op[1]) & all0)
+            elif k == "disable":
+                want = act0 - set(op[1])
+            elif k == "enableOnly":
+                want = set(op[1]) & all0
+            elif k in ("get", "active", "all"):
+                want = act0
+            if want is not None and act1 != want:
+                bad = {"after_op": i, "semantics": True, "op": list(op), "active_before": sorted(act0), "active_after": sorted(act1),
+                       "expected_after": sorted(want)}
         # oracle: what is applied == what is reported (identity), on every chain
         if bad is None and (oracle_rng is None or oracle_rng.random() < 0.5):
             rules = r.__rules__  # noqa: SLF001 (name is not mangled: trailing dunder)
@@ -380,7 +406,10 @@ def run(ctx: Ctx) -> None:
                     {"history": [list(o) for o in ops[: i + 1]], "impl": outs[i] if i < len(outs) else None,
                      "model": mo[i] if i < len(mo) else None, "request": line},
                 )
-            if bad is not None:
+            if bad is not None and bad.get("semantics"):
+                ctx.fail("reported!=calls", f"after {bad['op'][0]} the set of active rules is not what the set semantics of the call gives",
+                         {"history": [list(o) for o in ops[: bad["after_op"] + 1]], **bad})
+            elif bad is not None:
                 ctx.fail(
                     "applied!=reported",
                     "rules applied by getRules differ from the rules reported as active",
@@ -456,8 +485,8 @@ def search(ctx: Ctx):
             ops = pre + list(combo)
             outs, bad, _ = run_impl(ops, None)
             if bad is not None:
-                return Finding("applied!=reported", "rules applied differ from rules reported as active",
-                               {"history": [list(o) for o in ops], **bad})
+                return Finding("reported!=calls" if bad.get("semantics") else "applied!=reported",
+                               "the reported / applied rules do not follow the calls", {"history": [list(o) for o in ops], **bad})
     # façade: every pair (known name, unknown name) in both orders, and singletons
     from markdown_it import MarkdownIt
     for preset in ("commonmark", "js-default", "zero"):
